@@ -829,6 +829,13 @@ fn cli_case(ctx: &Ctx, ch: &mut Ch, scratch: &cli::Scratch) -> Outcome {
     let fuel = 2 + ch.pick(3);
     let Some(p) = prog::gen_program(ch, cfg, kind, fuel) else { return Ok(()) };
     let Some((r, label, _)) = rewrite(&p.s, &p.ty, ch) else { return Ok(()) };
+    // As in the `rewrites` part: a rewrite at the root of a definition can turn a syntactic value
+    // into a non-value; the rewritten program is in the domain only if it still satisfies the
+    // definition-order rule (R-order).
+    if !crate::refs::order::order_ok(&r.flatten_merged()) {
+        ctx.class("cli: excluded, the rewritten program does not satisfy the definition-order rule (a definition stopped being a syntactic value)");
+        return Ok(());
+    }
     let (ta, tb) = (p.text.clone(), sast::print_plain(&r.flatten()));
     scratch.write("a.g", ta.as_bytes());
     scratch.write("b.g", tb.as_bytes());
